@@ -117,6 +117,18 @@ def check(ctx: Ctx) -> None:
     scat = [n for n in walk_no_nested(fn.node) if isinstance(n, ast.Assign) and isinstance(n.targets[0], ast.Subscript)
             and norm(n.targets[0].value) == out_name]
     detail: Dict = {'argsort_index': sort_idx, 'sorted_gains': sorted_by, 'returned': norm(rets[0].value)}
+    if not scat:
+        # recognisably wrong: the sorted-order allocation is GATHERED through the argsort index (out = sorted_alloc[idx]); that applies the
+        # sorting permutation a second time instead of inverting it (right only when the permutation is an involution)
+        gath = [n for n in walk_no_nested(fn.node) if isinstance(n, ast.Assign) and len(n.targets) == 1 and norm(n.targets[0]) == out_name
+                and isinstance(n.value, ast.Subscript) and norm(n.value.slice) == sort_idx]
+        if gath:
+            ctx.obligation('C12.b', 'doWF:unsort', False, dict(detail, gather=norm(gath[0])[:80]))
+            ctx.violation('C12.b', 'doWF', 'the returned allocation is GATHERED through the argsort index (`%s`): that applies the sorting permutation '
+                          'again instead of inverting it, so the powers come back in the wrong channel order whenever the sort is not an '
+                          'involution (three or more channels in cyclic order)' % norm(gath[0])[:70], fn.path, gath[0].lineno, operand='unsort')
+            _check_budget(ctx, fn)
+            return
     if len(scat) != 1:
         ctx.error('C12.b: the returned allocation `%s` is not filled by exactly one scatter statement (%d): cannot tell' % (out_name, len(scat)))
     idx = ex(scat[0].targets[0].slice)
